@@ -494,7 +494,7 @@ def w_misc(task: Any) -> dict:
 
 
 def run(ctx: core.Ctx) -> None:
-    L = 5 if ctx.tier == "quick" else 6
+    L = 5 if ctx.tier == "quick" else 7
     ctx.rule = (f"value_to_int: every string of length <= {L} over the 18-symbol alphabet {ALPHABET!r} vs. an own "
                 "character-level recogniser; width/round trip of integer<->bytes for all v < 2^17 and 2^k±1 (k<=512) "
                 "x align x byte_cnt x endianness; align() for all n in -2..300 x a in -2..64; block helpers for all "
